@@ -8,7 +8,7 @@ use crate::driver::{AnyFlow, ReqCfg};
 use crate::engine::{guarded, Report, Tier, Violation};
 use crate::refmodel::{head, redirect};
 
-pub const RULE: &str = "full product: method (9) x status 300..=399 x policy {Never, SameHost} x response body {Content-Length: 0, Content-Length: 3 + body, chunked body, no framing header} x Location {/next, absent, one that resolves to the request's own URI, one on another host} x request mode {plain; HTTP/1.0 request (GET, HEAD, POST); loaded (cookie, referer, origin, user-agent and the caller's own Transfer-Encoding: chunked; body-less methods with send-body-despite-method; two superfluous try_response polls after the response was received); send-body-despite-method (body-less methods); Expect: 100-continue refused by the 3xx itself, and late 100 delivered in the same buffer as the 3xx (body methods)} = 105600 cells, each evaluated with the library's logging off and again with it at level Trace (debug!/trace! arguments evaluated and formatted), each driven through the real flow from Prepare to the state after the response (through RecvBody where there is one), then as_new_flow and the head of the new request. distinct = distinct (method, status class, body kind, outcome) cells";
+pub const RULE: &str = "full product: method (9) x status 300..=399 x policy {Never, SameHost} x response body {Content-Length: 0, Content-Length: 3 + body, chunked body, no framing header} x Location {/next, absent, one that resolves to the request's own URI, one on another host} x request mode {plain; HTTP/1.0 request (GET, HEAD, POST); an interim 103 handed out by the same flow first (GET, POST, DELETE); loaded (cookie, referer, origin, user-agent and the caller's own Transfer-Encoding: chunked; body-less methods with send-body-despite-method; two superfluous try_response polls after the response was received); send-body-despite-method (body-less methods); Expect: 100-continue refused by the 3xx itself, and late 100 delivered in the same buffer as the 3xx (body methods)} = 115200 cells, each evaluated with the library's logging off and again with it at level Trace (debug!/trace! arguments evaluated and formatted), each driven through the real flow from Prepare to the state after the response (through RecvBody where there is one), then as_new_flow and the head of the new request; plus method (9) x status {300,301,302,303,305,307,308,399} x policy along a chain of 24 redirects of that status (every fifth to another host), the table checked at every hop. distinct = distinct (method, status class, body kind, outcome) cells";
 
 const METHODS: [&str; 9] = ["GET", "HEAD", "POST", "PUT", "DELETE", "CONNECT", "OPTIONS", "TRACE", "PATCH"];
 const BODIES: [&str; 16] = ["cl0", "cl3", "chunked", "none", "cl0-noloc", "cl3-noloc", "chunked-noloc", "none-noloc", "cl0-self", "cl3-self", "chunked-self", "none-self", "cl0-xhost", "cl3-xhost", "chunked-xhost", "none-xhost"];
@@ -99,6 +99,14 @@ fn check_cell(method: &str, status: u16, same_host: bool, body: &str) -> (Option
                 o => return Err(h(format!("unexpected state {}", o.name()))),
             };
         };
+        if mode == "after103" {
+            // an interim 103 Early Hints is handed out by the same flow first; the caller then asks for the final response
+            let early = b"HTTP/1.1 103 Early Hints\r\nLink: </s.css>; rel=preload\r\n\r\n";
+            match f.try_response(early) {
+                Ok((n, Some(r))) if n == early.len() && r.status().as_u16() == 103 => {}
+                _ => return Ok("after103-not-handed-out".into()),
+            }
+        }
         let mut input: Vec<u8> = Vec::new();
         if mode == "late100" {
             input.extend_from_slice(b"HTTP/1.1 100 Continue\r\n\r\n");
@@ -111,7 +119,12 @@ fn check_cell(method: &str, status: u16, same_host: bool, body: &str) -> (Option
             if tries > 3 {
                 return Err(h("response not delivered".into()));
             }
-            let (n, r) = f.try_response(&input[off..]).map_err(|e| h(format!("try_response: {:?}", e)))?;
+            let (n, r) = match f.try_response(&input[off..]) {
+                Ok(x) => x,
+                // an implementation may decline a second head on the same flow: the cell then decides nothing
+                Err(_) if mode == "after103" => return Ok("after103-declined".into()),
+                Err(e) => return Err(h(format!("try_response: {:?}", e))),
+            };
             off += n;
             if r.is_some() {
                 break;
@@ -234,6 +247,9 @@ pub fn run(_tier: Tier) -> Report {
                     if matches!(m, "GET" | "HEAD" | "POST") {
                         jobs.push((m, s, p, format!("http10+{}", b)));
                     }
+                    if matches!(m, "GET" | "POST" | "DELETE") {
+                        jobs.push((m, s, p, format!("after103+{}", b)));
+                    }
                     let body_method = crate::refmodel::reqvalid::needs_body(m);
                     if !body_method {
                         jobs.push((m, s, p, format!("despite+{}", b)));
@@ -255,7 +271,73 @@ pub fn run(_tier: Tier) -> Report {
     rep.guard("log records were produced in the logging pass", crate::engine::LOG_LINES.load(std::sync::atomic::Ordering::Relaxed) > before);
     rep.merge(with_log);
     rep.extra("cells", json!(jobs.len() * 2));
+    deep_chains(&mut rep);
     rep
+}
+
+const DEEP_STATUSES: [u16; 8] = [300, 301, 302, 303, 305, 307, 308, 399];
+const DEEP_HOPS: usize = 24;
+
+/// The table holds for a flow whatever its own history: every (method, status, policy) once more along a
+/// chain of DEEP_HOPS redirects with the same status, every fifth one to another host. Returns the failure
+/// of the first hop that departs from the table.
+fn deep_chain(method: &str, status: u16, same_host: bool) -> Option<(String, String)> {
+    let cell = format!("{} {} policy={} chain of {} hops", method, status, if same_host { "SameHost" } else { "Never" }, DEEP_HOPS);
+    let r = guarded(|| -> Result<(), (String, String)> {
+        let h = |e: String| ("C15:harness".to_string(), e);
+        let mut cfg = ReqCfg::new(method, "1.1", "http://a.test/p").orig("authorization", "S3CRET");
+        if crate::refmodel::reqvalid::needs_body(method) {
+            cfg = cfg.orig("content-length", "0");
+        }
+        let mut cur = cfg.build_prepare().map_err(h)?;
+        let mut m = method.to_string();
+        for hop in 1..=DEEP_HOPS {
+            let loc = if hop % 5 == 0 { format!("http://h{}.test/n{}", hop, hop) } else { format!("/n{}", hop) };
+            let mut red = crate::chain::drive_to_redirect(&cur, b"", status, &crate::chain::Loc::one(&loc)).map_err(|e| ("C15:redirect-state-not-entered".to_string(), format!("{}: hop {}: {}", cell, hop, e)))?;
+            if red.status().as_u16() != status {
+                return Err(("C15:wrong-status".into(), format!("{}: hop {}: redirect state reports status {}", cell, hop, red.status())));
+            }
+            let want = redirect::new_method(&m, status);
+            let policy = if same_host { RedirectAuthHeaders::SameHost } else { RedirectAuthHeaders::Never };
+            let got = red.as_new_flow(policy).map_err(|e| ("C15:as-new-flow-error".to_string(), format!("{}: hop {}: {:?}", cell, hop, e)))?;
+            match (got, want) {
+                (None, None) => return Ok(()),
+                (None, Some(w)) => return Err(("C15:not-followed".into(), format!("{}: hop {}: redirect not followed, expected a {} request", cell, hop, w))),
+                (Some(nf), None) => return Err(("C15:followed-body-method".into(), format!("{}: hop {}: redirect followed with method {}", cell, hop, nf.method()))),
+                (Some(nf), Some(w)) => {
+                    if nf.method().as_str() != w {
+                        return Err(("C15:wrong-method".into(), format!("{}: hop {}: new flow has method {}, expected {}", cell, hop, nf.method(), w)));
+                    }
+                    m = w;
+                    cur = nf;
+                }
+            }
+        }
+        Ok(())
+    });
+    match r {
+        Ok(Ok(())) => None,
+        Ok(Err(e)) => Some(e),
+        Err(p) => Some((format!("C15:panic:{}", crate::engine::panic_site(&p)), format!("{}: {}", cell, p))),
+    }
+}
+
+fn deep_chains(rep: &mut Report) {
+    let _g = crate::engine::watch(|| "C15 deep chains".to_string());
+    let mut n = 0u64;
+    for m in METHODS {
+        for s in DEEP_STATUSES {
+            for p in [false, true] {
+                n += 1;
+                rep.evaluations += 1;
+                rep.transitions += DEEP_HOPS as u64;
+                if let Some((key, what)) = deep_chain(m, s, p) {
+                    rep.violation(Violation { key, ord: 1_000_000 + n, what, replay: json!({"deep": true, "method": m, "status": s, "same_host": p}) });
+                }
+            }
+        }
+    }
+    rep.extra("deep_chains", json!(n));
 }
 
 fn sweep(jobs: &[(&'static str, u16, bool, String)], logging_on: bool) -> Report {
@@ -294,6 +376,10 @@ fn sweep(jobs: &[(&'static str, u16, bool, String)], logging_on: bool) -> Report
 }
 
 pub fn replay(v: &Value) -> Result<Option<String>, String> {
+    if v["deep"].as_bool() == Some(true) {
+        let f = deep_chain(v["method"].as_str().ok_or("method")?, v["status"].as_u64().ok_or("status")? as u16, v["same_host"].as_bool().ok_or("same_host")?);
+        return Ok(f.map(|(k, w)| format!("[{}] {}", k, w)));
+    }
     if v["logging"].as_bool() == Some(true) {
         crate::engine::logging(true);
     }
